@@ -17,6 +17,7 @@ package ipv6only
 
 import (
 	"errors"
+	"math"
 	"time"
 
 	"github.com/coredhcp/coredhcp/handler"
@@ -40,6 +41,12 @@ func setup4(args ...string) (handler.Handler4, error) {
 		dur, err := time.ParseDuration(args[0])
 		if err != nil {
 			log.Errorf("invalid duration: %v", args[0])
+			return nil, errors.New("ipv6only failed to initialize")
+		}
+		// the option carries V6ONLY_WAIT as an unsigned 32-bit number of seconds: a negative duration or one
+		// that does not fit would be announced as a different wait (parts of a second are not sent)
+		if dur < 0 || dur > math.MaxUint32*time.Second {
+			log.Errorf("invalid duration: %v (want 0 to %d seconds)", args[0], uint32(math.MaxUint32))
 			return nil, errors.New("ipv6only failed to initialize")
 		}
 		v6only_wait = dur
